@@ -62,6 +62,23 @@ def _global_limit_applied(ex, st, post, result):
            'C10: with a request-wide coverage the composed result is masked with it before it is returned')
 
 
+def _output_size(ex, st, post, result):
+    """the composed image has the requested size (the first layer's size only when none was requested)"""
+    import z3
+    from pyvc.values import eq
+    created = T.evs(st, 'create_image')
+    if not created:
+        return
+    size = post.env['size']
+    first = st.heap[post.env['self'].ref]['layers'].elem(z3.IntVal(0)).items[0]
+    arg = created[0][1].args[0]
+    want_req = eq(arg, size.val) if hasattr(size, 'val') else eq(arg, size)
+    want_first = eq(arg, ex.opaque_field_at(st, created[0][1], first, 'size'))
+    none = size.isnone if hasattr(size, 'isnone') else z3.BoolVal(False)
+    g = z3.If(none, want_first, want_req)
+    yield ('output_has_requested_size', g, 'create_image(size, ..): the requested size; the size of the first layer only if size is None')
+
+
 def _layer_ops(ex, st, k):
     """per layer (bottom to top): the image composited is layer k's image; clipped iff its coverage clips; the operation
     is chosen by mode / opacity"""
@@ -76,6 +93,28 @@ def _layer_ops(ex, st, k):
     yield ('composites_layer_k', z3.BoolVal(ok), 'iteration k composites layer k (bottom-to-top order, each layer once)')
     ops = [e for e in evs_ if e.name in ('alpha_composite', 'blend', 'paste')]
     yield ('one_operation_per_layer', z3.BoolVal(len(ops) == 1), 'each layer is combined into the result exactly once')
+    # ---- added after the mutation audit: per-source clipping and opacity are applied exactly when configured ----------------
+    from pyvc.values import eq
+    lcov = layers.elem(k).items[1]
+    masks = [e for e in evs_ if e.name == 'mask_image']
+    clip = z3.And(ex.truth(st, lcov), ex.truth(st, ex.opaque_field(st, lcov.val, 'clip')) if hasattr(lcov, 'val') else z3.BoolVal(False))
+    g_clip = clip == z3.BoolVal(len(masks) == 1)
+    for m in masks:
+        ok_m = len(m.args) == 4 and as_img and m.args[0] is as_img[0].result and m.args[1] is st.env['bbox'] and m.args[2] is st.env['bbox_srs']
+        g_clip = z3.And(g_clip, z3.BoolVal(bool(ok_m)), eq(m.args[3], lcov.val) if ok_m and hasattr(lcov, 'val') else z3.BoolVal(False))
+    yield ('layer_clipped_iff_its_coverage_clips', g_clip,
+           'mask_image(layer image, bbox, bbox_srs, layer coverage) is applied exactly when the layer has a coverage with clip set')
+    opts = ex.opaque_field(st, cur, 'image_opts')
+    op = ex.opaque_field(st, opts.val, 'opacity') if hasattr(opts, 'val') else None
+    fades = [e for e in evs_ if e.name in ('putalpha', 'blend')]
+    if op is not None:
+        need = z3.And(z3.Not(opts.isnone), z3.Not(op.isnone), op.val.t < 1)
+        g_op = need == z3.BoolVal(len(fades) == 1)
+        for f in fades:
+            if f.name == 'blend':
+                g_op = z3.And(g_op, z3.BoolVal(len(f.args) == 3), eq(f.args[2], op.val) if len(f.args) == 3 else z3.BoolVal(False))
+        yield ('layer_faded_iff_opacity_below_one', g_op,
+               'a layer is faded (alpha scaled by its opacity, or blended with it) exactly when it has an opacity < 1')
 
 
 contract(M + 'LayerMerger.merge', props=['C14', 'C10'],
@@ -88,7 +127,7 @@ contract(M + 'LayerMerger.merge', props=['C14', 'C10'],
                       'blend': {'pure': True}, 'paste': {'pure': True}, 'ImageSource': {'pure': True},
                       'BlankImageSource': {'pure': True}},
          loops={0: dict(inv=[], types={'result': 'opaque'}, body_trace=[_layer_ops])},
-         trace=[_fast_path_guard, _global_limit_applied])
+         trace=[_fast_path_guard, _global_limit_applied, _output_size])
 
 
 # ---- opaque pruning: WMSSource.is_opaque ---------------------------------------------------------------------------------
